@@ -162,7 +162,8 @@ def field_table(case):
         name = p.get("alias") or p["att"]
         aliases = [name] + ([p["att"]] if p["att"] != name else [])
         deps = [by_att[d]["name"] for d in p["deps"]]
-        r = {"att": p["att"], "name": name, "aliases": aliases, "type": "tuple", "required": False, "immutable": False,
+        r = {"att": p["att"], "name": name, "aliases": aliases, "kind": p.get("kind", "tuple"),
+             "type": "ge10" if p.get("kind") == "ge10" else "tuple", "required": False, "immutable": False,
              "no_output": False, "prop": True, "deps": deps, "dep_atts": list(p["deps"]), "dependants": [],
              "defer": False, "default": None, "has_default": False}
         out.append(r)
@@ -238,11 +239,23 @@ def _namespace(fields, props, opts, excluded, declare_opts=False):
         ns["__annotations__"][x] = int
         ns[x] = 0
     for p in props:
-        def make(deps):
-            def fget(self) -> tuple:
-                return tuple(getattr(self, d) for d in deps)
+        def make(deps, kind):
+            # "tuple": total; "guard": raises on a falsy first dependency; "ge10": returns the first dependency and
+            # declares the return type Ge10 (the result may not convert)
+            if kind == "ge10":
+                def fget(self) -> py_type("ge10"):
+                    return tuple(getattr(self, d) for d in deps)[0]     # reads every declared dependency
+            elif kind == "guard":
+                def fget(self) -> tuple:
+                    vals = tuple(getattr(self, d) for d in deps)
+                    if not vals[0]:
+                        raise ValueError("getter refuses a falsy first dependency")
+                    return vals
+            else:
+                def fget(self) -> tuple:
+                    return tuple(getattr(self, d) for d in deps)
             return fget
-        fget = make(tuple(p["deps"]))
+        fget = make(tuple(p["deps"]), p.get("kind", "tuple"))
         fget.__name__ = p["att"]
         fkw = {"dependencies": list(p["deps"])}
         if p.get("alias"):
@@ -380,7 +393,9 @@ def snapshot(inst, table, is_schema):
         except AttributeError:
             view.append([f["att"], None])
         except Exception as e:  # noqa
-            view.append([f["att"], "!" + type(e).__name__])
+            # a property that is not stored is computed on reading: a raising getter / a result that does not
+            # convert means "not readable", like AttributeError; for a declared field any other error is reported
+            view.append([f["att"], None if f["prop"] else "!" + type(e).__name__])
         try:
             has.append([f["att"], bool(f["att"] in inst)])
         except Exception as e:  # noqa
@@ -440,6 +455,19 @@ def impl(case):
         for v in vals:
             ptable.append([f["name"], txt(v), convert(T, dec(v))])
     atable = [[txt(v), convert(int, dec(v))] for v in vals]
+    # conversion of the results of "ge10" properties: every value their first dependency can take
+    ctable = []
+    for p in table:
+        if p["prop"] and p["kind"] == "ge10":
+            f0 = next(f for f in table if f["att"] == p["dep_atts"][0])
+            cands = {r for (nm, _x, r) in ptable if nm == f0["name"] and r is not None}
+            cands.add(txt(f0["default"]))
+            try:
+                cands.add(txt(enc(getattr(inst, f0["att"]))))
+            except Exception:  # noqa
+                pass
+            for c_ in sorted(cands):
+                ctable.append([p["name"], c_, convert(py_type("ge10"), dec(json.loads(c_)))])
     dependants = {}
     try:
         for f in table:
@@ -448,7 +476,7 @@ def impl(case):
     except Exception:  # noqa
         pass
     heap = [inst]
-    out = {"init": [snapshot(inst, table, is_schema)], "steps": [], "ptable": ptable, "atable": atable,
+    out = {"init": [snapshot(inst, table, is_schema)], "steps": [], "ptable": ptable, "atable": atable, "ctable": ctable,
            "dependants": dependants}
     for op in case["ops"]:
         kind = op["op"]
@@ -585,8 +613,17 @@ def check_instance(case, table, snap, root, taint, prev_snap=None):
         if view.get(p["att"]) != data[p["name"]]:
             bad.append(("views", f"property {p['att']!r} reads {view.get(p['att'])} but key holds {data[p['name']]}"))
         deps = [view.get(a) for a in p["dep_atts"]]
-        fresh = all(isinstance(x, str) and not x.startswith("!") for x in deps) and \
-            json.loads(data[p["name"]]) == {"t": [json.loads(x) for x in deps]}
+        readable = all(isinstance(x, str) and not x.startswith("!") for x in deps)
+        if not readable:
+            fresh = False
+        elif p["kind"] == "ge10":
+            d0 = _val(deps[0])        # the getter returns its first dependency, declared Ge10
+            fresh = isinstance(d0, int) and not isinstance(d0, bool) and d0 >= 10 and _val(data[p["name"]]) == d0 \
+                and type(_val(data[p["name"]])) is int
+        elif p["kind"] == "guard" and not _val(deps[0]):
+            fresh = False             # the getter raises on a falsy first dependency: nothing may be stored
+        else:
+            fresh = json.loads(data[p["name"]]) == {"t": [json.loads(x) for x in deps]}
         if fresh:
             if prev_data is None or prev_data.get(p["name"]) != data[p["name"]]:
                 taint.discard(p["name"])     # recomputed since the last snapshot
@@ -685,6 +722,14 @@ def gen_class(rng, base=None):
         for pa in ["p", "q"][: rng.choice([0, 1, 1, 1, 2])]:
             deps = rng.sample([f["att"] for f in fields], rng.randint(1, min(2, nf)))
             p = {"att": pa, "deps": deps}
+            kind = rng.choices(["tuple", "guard", "ge10"], [50, 25, 25])[0]
+            if kind == "ge10":
+                ints = [f["att"] for f in fields if f["type"] in ("int", "ge10", "optint")]
+                if ints:
+                    p["deps"] = [rng.choice(ints)] + [d for d in deps if d not in ints][:1]
+                    p["kind"] = "ge10"
+            elif kind == "guard":
+                p["kind"] = "guard"
             if rng.random() < 0.25:
                 p["alias"] = "@" + pa
             props.append(p)
@@ -933,7 +978,7 @@ class C07(Check):
     driver = "C07"
     impl = "harness.c07:impl"
     rule = ("random data classes (2-5 fields drawn from required/default/deferred-default/optional x aliased x alias_from x "
-            "immutable/Final x no_output over 4 field types, 0-2 getter properties with declared dependencies, options immutable/"
+            "immutable/Final x no_output over 4 field types, 0-2 getter properties with declared dependencies (getter total / raising on a falsy first dependency / returning a value that may not convert to its declared Ge10 return type), options immutable/"
             "ignore_required/ignore_delete_nonexistent/collect_errors/addition in {ignore,allow,forbid,int}; Schema 82% / DataClass 18%; "
             "40% of the classes are reached by inheritance: a base class with other declarations of some fields (type, default, "
             "immutable, no_output) and other options, and a subclass that re-declares them (by annotation alone or with a Field), "
@@ -949,8 +994,8 @@ class C07(Check):
     assumptions = ["the converter of each field type is taken from utype's type-level API (type_transform) and handed to the model as a table: "
                    "C07 is about what the mutators do with it, not about the converters (C01/C02)",
                    "fragment: on_error/invalid_values = throw, no mode, getter-only properties whose dependencies are "
-                   "declared non-property fields and whose getter is total; property setters/deleters, callable no_output, case-insensitive "
-                   "fields are outside the model (not generated)",
+                   "declared non-property fields (getters may raise, results may not convert); property setters/deleters, callable no_output, "
+                   "case-insensitive fields, property-to-property dependencies are outside the model (not generated)",
                    "the initial instance is produced by the real constructor; the theorems assume the invariant for it and the sweep checks it"]
     budget = {"quick": 1500, "thorough": 12000}
     search_budget = {"quick": 3000, "thorough": 20000}
@@ -1042,6 +1087,7 @@ class C07(Check):
         return {"base": case["base"], "legacy": bool(case.get("legacy")), "opts": case["opts"],
                 "enclosing": case["nest"]["parent_opts"] if case.get("nest") else None, "fields": fields,
                 "excluded": case.get("excluded", []), "ptable": io["ptable"], "atable": io["atable"],
+                "ctable": io.get("ctable", []), "propkinds": [[f["name"], f["kind"]] for f in tab if f["prop"]],
                 "deferred": [[f["name"], txt(f["default"])] for f in tab if f["defer"]],
                 # the state handed to __post_init__: the constructed instance minus the computed properties
                 "init": {"data": [kv for kv in s0["data"] if kv[0] not in pnames], "attrs": s0["attrs"]},
